@@ -185,30 +185,35 @@ func checkC08(cx *Ctx, r *Report) {
 	cx.checkEmitExactlyOne(r, "R-EMIT", "provider.(*Response).sendBackResponse", w.Func("provider.(*Response).sendBackResponse"))
 	cx.checkEmitExactlyOne(r, "R-EMIT", "provider.(*LogoutResponse).sendBackLogoutResponse", w.Func("provider.(*LogoutResponse).sendBackLogoutResponse"))
 	cx.checkPageCannotFailOnData(r)
-	// ErrorFunc literals of the three handlers that build a Response/LogoutResponse
-	for _, hk := range []string{kSSO, kCallback, kLogout} {
-		h := w.Func(hk)
-		if h == nil {
-			continue
-		}
-		for _, an := range h.AnonFuncs {
-			if an.Signature.Params().Len() == 1 && isErrorType(an.Signature.Params().At(0).Type()) && an.Signature.Results().Len() == 0 {
-				if cs := fx.closSite[an]; cs != nil {
-					// stored into an ErrorFunc field?
-					isEF := false
-					for _, ref := range nonDebugRefs(cs) {
-						if st, ok := ref.(*ssa.Store); ok {
-							if fa, ok := st.Addr.(*ssa.FieldAddr); ok && fname(fieldVar(fa.X.Type(), fa.Field)) == "ErrorFunc" {
-								isEF = true
-							}
-						}
+	// every function stored into an ErrorFunc field of a Response / LogoutResponse (closure or plain function)
+	{
+		seenEF := map[*ssa.Function]bool{}
+		nEF := 0
+		for _, fn := range w.sortedFuncs(cx.handlerScope()) {
+			for _, st := range fx.info(fn).stores {
+				fa, ok := st.Addr.(*ssa.FieldAddr)
+				if !ok || fname(fieldVar(fa.X.Type(), fa.Field)) != "ErrorFunc" {
+					continue
+				}
+				if o := fieldOwner(fa.X.Type()); o != "provider.Response" && o != "provider.LogoutResponse" {
+					continue
+				}
+				tg, okT := fx.funcTargets(st.Val)
+				if !okT || len(tg) == 0 {
+					r.Undecided("R-EMIT", "ErrorFunc@"+w.InstrPos(st), w.InstrPos(st), "the function stored as ErrorFunc cannot be resolved")
+					continue
+				}
+				for _, an := range tg {
+					if seenEF[an] {
+						continue
 					}
-					if isEF {
-						cx.checkEmitExactlyOne(r, "R-EMIT", "ErrorFunc:"+w.FuncKey(an), an)
-					}
+					seenEF[an] = true
+					nEF++
+					cx.checkEmitExactlyOne(r, "R-EMIT", "ErrorFunc:"+w.FuncKey(an), an)
 				}
 			}
 		}
+		r.Check(nEF >= 3, "R-EMIT", "#ErrorFunc", "", fmt.Sprintf("%d error reporters of reply objects", nEF), fmt.Sprintf("only %d functions are stored as ErrorFunc of a reply object (the SSO, callback and logout handlers each set one)", nEF))
 	}
 	// the reply of one request cannot be overwritten or prefixed by another request's (pooled buffers)
 	cx.checkPoolEscape(r)
